@@ -240,6 +240,9 @@ func universal(sc *Scn, x *vrt.Sched, w *World) []Finding {
 		for _, e := range events {
 			if (e.kind == "h-enter" || e.kind == "h-exit") && e.conn == conn && e.pos > closePos {
 				add("C08", "the socket is closed before a handler of that connection has returned", fmt.Sprintf("%q at %d, socket closed at %d; log: %v", e.raw, e.pos, closePos, x.Log))
+				if ci >= 0 && ci < len(sp.Conns) && hasOp(sp.Conns[ci].Ops, "unbind") {
+					add("C10", "after an Unbind the connection is closed before an earlier in-flight handler has finished", fmt.Sprintf("%q at %d, socket closed at %d; log: %v", e.raw, e.pos, closePos, x.Log))
+				}
 			}
 		}
 	}
@@ -290,6 +293,33 @@ func universal(sc *Scn, x *vrt.Sched, w *World) []Finding {
 	for id, n := range cnt {
 		if n > 1 {
 			add("C06", "a request is dispatched more than once", fmt.Sprintf("message %d dispatched %d times", id, n))
+			add("C03", "a request is handled more than once (through the connection loop)", fmt.Sprintf("message %d dispatched %d times", id, n))
+		}
+	}
+	// a request whose client received all expected answers must have been dispatched
+	for ci, cs := range sp.Conns {
+		if cs.Read != "" || cs.Expect == 0 || cs.TLS != "" {
+			continue
+		}
+		var cl *Cl
+		for _, c := range w.Clients {
+			if clientIndex(sp, c.Name) == ci {
+				cl = c
+			}
+		}
+		if cl == nil || cl.DialErr != nil || !stopped {
+			continue
+		}
+		for k, op := range cs.Ops {
+			if op == "unbind" || op == "garbage" || op == "compare" {
+				break
+			}
+			if h := cs.H[k+1]; h != nil && h.Panic != "" {
+				continue
+			}
+			if cnt[msgID(ci, k+1)] == 0 {
+				add("C03", "a request is silently dropped (never dispatched to any handler)", fmt.Sprintf("message %d (%s) of client %s; dispatched: %v", msgID(ci, k+1), op, cl.Name, w.Dispatch))
+			}
 		}
 	}
 
@@ -502,4 +532,13 @@ func roles(blocked []string) string {
 	}
 	sort.Strings(out)
 	return strings.Join(out, " ")
+}
+
+func hasOp(ops []string, op string) bool {
+	for _, o := range ops {
+		if o == op {
+			return true
+		}
+	}
+	return false
 }
